@@ -713,7 +713,7 @@ class IncrementalExecutor(Executor[DeliveryGroupMap]):
                         item,
                         None,
                     )
-                except Exception:
+                except BaseException:  # also when cancelled
                     abort_result = self.abort()
                     if is_awaitable(abort_result):
                         await abort_result
@@ -752,7 +752,7 @@ class IncrementalExecutor(Executor[DeliveryGroupMap]):
                             raw_error, item_type, field_details_list, item_path
                         )
                         resolved = None
-                except Exception:
+                except BaseException:  # also when cancelled
                     abort_result = self.abort()
                     if is_awaitable(abort_result):
                         await abort_result
